@@ -91,3 +91,88 @@ for _spec in dcspec.SPECS:
            bounds=bounds_text(_spec, _g, 'Schema') + '; both lookup strategies on the same input',
            out='combinations of option groups; non-int field types; DataClass base (covered by C05); the thorough key vocabulary (7 / 8 keys) is explored within the budget (solver-driven, every path replayed), not exhausted: the exhaustive claim is the quick vocabulary')(
             (lambda s, g: lambda V: _c06(V, s, g, 'Schema'))(_spec, _g))
+
+
+# ------------------------------------------------------------------ inherited declarations re-declared by a subclass
+from utype import Field as _Field, Options as _Options, Schema as _Schema  # noqa: E402
+
+
+def _mk_inherit(dfs):
+    class Base(_Schema):
+        __options__ = _Options(data_first_search=dfs)
+        name: int = _Field(alias_from=['title'], default=0)
+        n: int = _Field(alias_from=['N1'], default=1)
+        keep: int = _Field(alias_from=['k'], default=2)
+
+    class Sub(Base):
+        __options__ = _Options(data_first_search=dfs)
+        name: int = 0                            # drops the alias of the base declaration
+        n: int = _Field(alias_from=['N2'], default=1)    # replaces it
+    return Sub
+
+
+INHERIT = {True: _mk_inherit(True), False: _mk_inherit(False)}
+INHERIT_KEYS = ['name', 'title', 'n', 'N1', 'N2', 'keep', 'k']
+
+
+@ob('inheritance/redeclared-aliases', marks=['accept'], budget=(60, 200),
+    bounds='a subclass re-declares two inherited fields (dropping an alias_from, replacing one) and keeps a third; input = '
+           'solver-chosen subset of %r with solver int values: data-first and field-first give the same outcome (verdict, key view, '
+           'attribute view)' % INHERIT_KEYS)
+def inheritance_redeclared_aliases(V):
+    items = [(k, V.int('v_' + k, -3, 3)) for k in INHERIT_KEYS if V.bool('has_' + k)]
+    d = dcspec.run_impl(INHERIT[True], items)
+    f = dcspec.run_impl(INHERIT[False], items)
+    show = lambda r: (r[0], r[1]) if r[0] != 'ok' else (r[0], r[1], r[2])
+    det = lambda: 'Sub %r: data-first -> %r ; field-first -> %r' % (dict(items), show(d), show(f))
+    V.check(d[0] != 'crash' and f[0] != 'crash', 'strategy:crash', det)
+    V.check(d[0] == f[0], 'strategy:verdict:inherited-declaration', det)
+    if d[0] == 'ok':
+        V.check(d[1] == f[1] and d[2] == f[2], 'strategy:value:inherited-declaration', det)
+        V.cover('accept')
+    else:
+        V.check(d[1] == f[1], 'strategy:error-kinds:inherited-declaration', det)
+
+
+# ------------------------------------------------------------------ decorated functions (results keyed by attribute name)
+import utype as _utype  # noqa: E402
+from utype import exc  # noqa: E402
+
+
+def _mk_charge(dfs):
+    @_utype.parse(options=_Options(data_first_search=dfs))
+    def charge(card: int = _utype.Param(None, dependencies=['billing']), billing: int = _utype.Param(None, alias='billingAddress'),
+               note: int = _utype.Param(0, alias_from=['n']), zip_code: int = _utype.Param(None, alias='zip', dependencies=['billing'])):
+        return dict(card=card, billing=billing, note=note, zip_code=zip_code)
+    return charge
+
+
+CHARGE = {True: _mk_charge(True), False: _mk_charge(False)}
+CHARGE_KEYS = ['card', 'billing', 'billingAddress', 'note', 'n', 'zip', 'zip_code']
+
+
+@ob('function/dependencies-and-aliases', marks=['accept', 'reject'], budget=(60, 200),
+    bounds='@parse function whose parameters have dependencies on an aliased parameter, an alias_from spelling and an aliased dependant; '
+           'keyword arguments = solver-chosen subset of %r with solver ints | "x": both lookup strategies give the same outcome (the '
+           'arguments the body receives, or the same error kinds)' % CHARGE_KEYS)
+def function_dependencies_and_aliases(V):
+    kwargs = {}
+    for k in CHARGE_KEYS:
+        if V.bool('has_' + k):
+            kwargs[k] = V.int('v_' + k, -3, 3) if V.bool('int_' + k) else 'x'
+
+    if any(a in kwargs and b in kwargs for a, b in (('note', 'n'), ('billing', 'billingAddress'), ('zip', 'zip_code'))):
+        return      # two spellings of one parameter: the alias-conflict findings of the data-class obligations
+
+    def run(fn):
+        try:
+            return ('ok', fn(**kwargs))
+        except exc.ParseError as e:
+            return ('err', sorted(dcspec.err_kinds(e)))
+        except Exception as e:  # noqa
+            return ('crash', type(e).__name__, str(e)[:80])
+    d, f = run(CHARGE[True]), run(CHARGE[False])
+    det = lambda: 'charge(**%r): data-first -> %r ; field-first -> %r' % (kwargs, d, f)
+    V.check(d[0] == f[0], 'strategy:verdict:function', det)
+    V.check(d == f or d[0] == 'crash', 'strategy:value:function', det)
+    V.cover('accept' if d[0] == 'ok' else 'reject')
